@@ -88,6 +88,8 @@ pub struct SimInner {
     pub gate_now: u64,
     /// The earliest timer, i.e. the wake-up the daemon asks for.
     pub wakeup: Option<u64>,
+    /// Commands waiting in the daemon's queue when it arrived at the gate.
+    pub queued: usize,
     /// 0: no snapshot, 1: summary, 2: with every cached record.
     pub snapshot_level: u8,
     pub snapshot: Option<Snapshot>,
@@ -124,21 +126,30 @@ pub struct SimInner {
 pub struct SimCtx {
     pub clock: Arc<AtomicU64>,
     pub seed: u64,
+    /// Chosen by the harness to recognise the daemon, e.g. in a panic hook.
+    pub tag: u64,
     pub inner: Mutex<SimInner>,
     pub cv: Condvar,
 }
 
 impl SimCtx {
-    pub fn new(clock: Arc<AtomicU64>, seed: u64, ifaces: Vec<if_addrs::Interface>) -> Arc<Self> {
+    pub fn new(
+        clock: Arc<AtomicU64>,
+        seed: u64,
+        tag: u64,
+        ifaces: Vec<if_addrs::Interface>,
+    ) -> Arc<Self> {
         Arc::new(Self {
             clock,
             seed,
+            tag,
             inner: Mutex::new(SimInner {
                 parked: false,
                 permits: 0,
                 iter: 0,
                 gate_now: 0,
                 wakeup: None,
+                queued: 0,
                 snapshot_level: 0,
                 snapshot: None,
                 ended: None,
@@ -213,6 +224,11 @@ fn current() -> Option<Arc<SimCtx>> {
     CTX.with(|c| c.borrow().clone())
 }
 
+/// The tag of the calling thread's simulation context, if it has one.
+pub fn ctx_tag() -> Option<u64> {
+    CTX.with(|c| c.borrow().as_ref().map(|ctx| ctx.tag))
+}
+
 /// True if the calling thread runs under a simulation context.
 pub fn active() -> bool {
     CTX.with(|c| c.borrow().is_some())
@@ -281,7 +297,11 @@ pub(crate) fn adopt(signal_addr: SocketAddr) -> ExitGuard {
 
 /// Hook in `current_time_millis`.
 pub(crate) fn virtual_now() -> Option<u64> {
-    CTX.with(|c| c.borrow().as_ref().map(|ctx| ctx.clock.load(Ordering::SeqCst)))
+    CTX.with(|c| {
+        c.borrow()
+            .as_ref()
+            .map(|ctx| ctx.clock.load(Ordering::SeqCst))
+    })
 }
 
 /// Payload used to unwind a simulated daemon thread whose world is gone.
@@ -295,6 +315,7 @@ pub(crate) fn gate(
     now: u64,
     earliest_timer: Option<u64>,
     timeout: Option<Duration>,
+    queued: usize,
     snapshot: impl FnOnce(u8) -> Snapshot,
 ) -> Option<Duration> {
     let Some(ctx) = current() else {
@@ -304,6 +325,7 @@ pub(crate) fn gate(
     g.iter += 1;
     g.gate_now = now;
     g.wakeup = earliest_timer;
+    g.queued = queued;
     if g.snapshot_level > 0 {
         let level = g.snapshot_level;
         g.snapshot = Some(snapshot(level));
@@ -550,7 +572,10 @@ impl PktInfoUdpSocket {
             (Some(s), _) => s.send_to(buf, addr),
             (None, Some(ctx)) => {
                 let Some(dest) = addr.as_socket() else {
-                    return Err(io::Error::new(io::ErrorKind::InvalidInput, "not an IP address"));
+                    return Err(io::Error::new(
+                        io::ErrorKind::InvalidInput,
+                        "not an IP address",
+                    ));
                 };
                 let t = ctx.clock.load(Ordering::SeqCst);
                 let mut g = ctx.lock();
@@ -581,7 +606,10 @@ impl PktInfoUdpSocket {
                     g.ingress_v6.pop_front()
                 };
                 let Some(pkt) = next else {
-                    return Err(io::Error::new(io::ErrorKind::WouldBlock, "no datagram queued"));
+                    return Err(io::Error::new(
+                        io::ErrorKind::WouldBlock,
+                        "no datagram queued",
+                    ));
                 };
                 g.consumed += 1;
                 let n = pkt.data.len().min(buf.len());
